@@ -149,6 +149,9 @@ class Report:
 def _run_job(args):
     fn, job = args
     try:
+        # a worker may have been forked while the parent was in the middle of restoring module state: start clean
+        from vlib import stateguard
+        stateguard.restore()
         return ("ok", job, fn(job))
     except BaseException as e:  # noqa - reported to the parent, never swallowed
         return ("error", job, "%s: %s\n%s" % (type(e).__name__, e, traceback.format_exc(limit=8)))
